@@ -1,0 +1,121 @@
+//go:build verif
+
+// Contracts for package facet (read by /verif/gocv; comment-only effect with the verif tag off).
+
+package facet
+
+// ---------------------------------------------------------------------------
+// C10: facet builders count every value the collector shows them
+// ---------------------------------------------------------------------------
+
+// external, assumed: pure predicates
+//@ assume func regexp.Regexp.Match(re, b)
+//@   pure
+//@ assume func time.Unix(sec, nsec)
+//@   pure
+//@ assume func time.Time.IsZero(t)
+//@   pure
+//@ assume func time.Time.After(t, u)
+//@   pure
+//@ assume func time.Time.Before(t, u)
+//@   pure
+//@ assume func time.Time.Equal(t, u)
+//@   pure
+
+// ---- terms facet ----
+
+// A term is counted iff it passes the prefix and regexp filters; total counts every value.
+//@ spec termAccepted(fb *TermsFacetBuilder, term []byte) bool = (len(fb.prefixBytes) == 0 || bytes.HasPrefix(term, fb.prefixBytes)) && (fb.regex == nil || fb.regex.Match(term))
+
+//@ func TermsFacetBuilder.UpdateVisitor
+//@   props C10
+//@   mode int
+//@   requires fb != nil && fb.termsCount != nil && fb.total >= 0 && fb.total < 4611686018427387904 && all(k, string, fb.termsCount[k] >= 0 && fb.termsCount[k] < 4611686018427387904)
+//@   modifies fb.total, fb.sawValue, map(fb.termsCount)
+//@   ensures fb.total == old(fb.total) + 1
+//@   ensures implies(old(termAccepted(fb, term)), fb.sawValue && fb.termsCount[string(term)] == old(fb.termsCount[string(term)]) + 1 && \
+//@             all(k, string, implies(k != string(term), fb.termsCount[k] == old(fb.termsCount[k]))))
+//@   ensures implies(!old(termAccepted(fb, term)), fb.sawValue == old(fb.sawValue) && all(k, string, fb.termsCount[k] == old(fb.termsCount[k])))
+
+//@ func TermsFacetBuilder.StartDoc
+//@   props C10
+//@   mode int
+//@   requires fb != nil
+//@   modifies fb.sawValue
+//@   ensures !fb.sawValue
+
+// A document without any (accepted) value for the field is counted as missing.
+//@ func TermsFacetBuilder.EndDoc
+//@   props C10
+//@   mode int
+//@   requires fb != nil && fb.missing >= 0 && fb.missing < 4611686018427387904
+//@   modifies fb.missing
+//@   ensures fb.missing == old(fb.missing) + ite(fb.sawValue, 0, 1)
+
+// ---- numeric range facet: a value is counted in every range [min, max) that contains it ----
+
+//@ spec inNumRange(f float64, r *numericRange) bool = (r.min == nil || f >= *r.min) && (r.max == nil || f < *r.max)
+
+//@ func NumericFacetBuilder.UpdateVisitor
+//@   props C10
+//@   mode int
+//@   ghostlocal f float64 = 0
+//@   ghostlocal decoded bool = false
+//@   requires fb != nil && fb.termsCount != nil && fb.total >= 0 && fb.total < 4611686018427387904 && all(k, string, fb.termsCount[k] >= 0 && fb.termsCount[k] < 4611686018427387904)
+//@   requires all(k, string, implies(in(fb.ranges, k), fb.ranges[k] != nil)) && len(fb.ranges) < 1048576 && fb.ranges != fb.termsCount
+//@   modifies fb.total, fb.sawValue, map(fb.termsCount)
+//@   at call numeric.Int64ToFloat64#0 after: ghost f = result
+//@   at call numeric.Int64ToFloat64#0 after: ghost decoded = true
+//@   ensures fb.sawValue && fb.total >= old(fb.total)
+//@   ensures implies(!decoded, fb.total == old(fb.total) && all(k, string, fb.termsCount[k] == old(fb.termsCount[k])))
+//@   ensures implies(decoded, all(k, string, fb.termsCount[k] == old(fb.termsCount[k]) + ite(in(fb.ranges, k) && inNumRange(f, fb.ranges[k]), 1, 0)))
+//@   loop 0: invariant decoded && fb.sawValue && fb.termsCount == old(fb.termsCount) && fb.ranges == old(fb.ranges) && fb.total >= old(fb.total) && fb.total <= old(fb.total) + iter
+//@   loop 0: invariant all(k, string, fb.termsCount[k] == old(fb.termsCount[k]) + ite(visited(k) && inNumRange(f, fb.ranges[k]), 1, 0))
+
+//@ func NumericFacetBuilder.StartDoc
+//@   props C10
+//@   mode int
+//@   requires fb != nil
+//@   modifies fb.sawValue
+//@   ensures !fb.sawValue
+
+//@ func NumericFacetBuilder.EndDoc
+//@   props C10
+//@   mode int
+//@   requires fb != nil && fb.missing >= 0 && fb.missing < 4611686018427387904
+//@   modifies fb.missing
+//@   ensures fb.missing == old(fb.missing) + ite(fb.sawValue, 0, 1)
+
+// ---- date range facet: [start, end) on time.Time (After/Equal/Before assumed pure) ----
+
+//@ spec inDateRange(t time.Time, r *dateTimeRange) bool = (r.start.IsZero() || t.After(r.start) || t.Equal(r.start)) && (r.end.IsZero() || t.Before(r.end))
+
+//@ func DateTimeFacetBuilder.UpdateVisitor
+//@   props C10
+//@   mode int
+//@   ghostlocal tt time.Time = time.Unix(0, 0)
+//@   ghostlocal decoded bool = false
+//@   requires fb != nil && fb.termsCount != nil && fb.total >= 0 && fb.total < 4611686018427387904 && all(k, string, fb.termsCount[k] >= 0 && fb.termsCount[k] < 4611686018427387904)
+//@   requires all(k, string, implies(in(fb.ranges, k), fb.ranges[k] != nil)) && len(fb.ranges) < 1048576 && fb.ranges != fb.termsCount
+//@   modifies fb.total, fb.sawValue, map(fb.termsCount)
+//@   at call time.Unix#0 after: ghost tt = result
+//@   at call time.Unix#0 after: ghost decoded = true
+//@   ensures fb.sawValue && fb.total >= old(fb.total)
+//@   ensures implies(!decoded, fb.total == old(fb.total) && all(k, string, fb.termsCount[k] == old(fb.termsCount[k])))
+//@   ensures implies(decoded, all(k, string, fb.termsCount[k] == old(fb.termsCount[k]) + ite(in(fb.ranges, k) && inDateRange(tt, fb.ranges[k]), 1, 0)))
+//@   loop 0: invariant decoded && fb.sawValue && fb.termsCount == old(fb.termsCount) && fb.ranges == old(fb.ranges) && fb.total >= old(fb.total) && fb.total <= old(fb.total) + iter
+//@   loop 0: invariant all(k, string, fb.termsCount[k] == old(fb.termsCount[k]) + ite(visited(k) && inDateRange(tt, fb.ranges[k]), 1, 0))
+
+//@ func DateTimeFacetBuilder.StartDoc
+//@   props C10
+//@   mode int
+//@   requires fb != nil
+//@   modifies fb.sawValue
+//@   ensures !fb.sawValue
+
+//@ func DateTimeFacetBuilder.EndDoc
+//@   props C10
+//@   mode int
+//@   requires fb != nil && fb.missing >= 0 && fb.missing < 4611686018427387904
+//@   modifies fb.missing
+//@   ensures fb.missing == old(fb.missing) + ite(fb.sawValue, 0, 1)
